@@ -39,6 +39,10 @@ class LengthGFA1:
     l = self.length
     if l is None:
       raise gfapy.NotFoundError("No length information available")
+    if not isinstance(l, int) or isinstance(l, bool):
+      raise gfapy.TypeError(
+        "The length of segment {} is not an integer ({})".format(
+          self.name, repr(l)))
     return l
 
   def validate_length(self):
